@@ -34,7 +34,7 @@ FUNCTIONS = [
 ]
 FUNCS = (F.ann_class, F.ann_generic, F.ann_optional, F.ann_string, F.ann_newtype, F.ann_none_default, F.ann_iter, F.ann_any,
          F.unannotated, F.defaults, F.Klass.method, F.kw_only, F.Deco.annotated_self, F.Deco.__dict__["annotated_cls"].__func__,
-         F.ann_union_none_default, F.ann_variadic, F.ann_string_none_default, F.ann_gen_source)
+         F.ann_union_none_default, F.ann_variadic, F.ann_string_none_default, F.ann_gen_source, F.ann_newtype_none_default)
 STRATEGIES = (S.REPLICATE, S.OMIT, S.IGNORE)
 TRACED_TYPES = (int, typing.Union[int, str], List[str], K.B, Optional[K.A], type(None))
 SHAPES = ("return", "yield", "yield+return", "yield+None", "nothing")
